@@ -560,7 +560,53 @@ class Ctx:
             return True
         if d.is_const():
             return False
+        if not self.maybe_equal(a, b):
+            return False
         return self.entails(d.num_term() == 0, timeout_ms)
+
+    # ---- numeric pre-filter for candidate selection (never decides anything: a candidate that fails the
+    #      probe is simply not submitted to the solver and the node falls back to the sound fresh-variable
+    #      over-approximation) -------------------------------------------------------------------------
+    def _probe_env(self, k):
+        import random
+        if not hasattr(self, "_probes"):
+            self._probes = [dict(), dict()]
+            self._prng = random.Random(12345)
+
+        class Env(dict):
+            def __init__(s2, base, rng, fix):
+                super().__init__(base)
+                s2.base, s2.rng, s2.fix = base, rng, fix
+
+            def __missing__(s2, key):
+                v = mp.mpf(s2.rng.uniform(0.35, 1.45))
+                s2.base[key] = v
+                s2[key] = v
+                return v
+        e = Env(self._probes[k], self._prng, None)
+        return e
+
+    def maybe_equal(self, a: Val, b: Val):
+        from .solve import eval_val, val_vars
+        try:
+            names = val_vars([a, b])
+            if any("!" in n for n in names):
+                return True
+            for k in (0, 1):
+                env = self._probe_env(k)
+                for n in names:
+                    env[n]
+                fix = getattr(self, "probe_fix", None)
+                if fix is not None:
+                    fix(env)
+                    self._probes[k].update(env)
+                va = eval_val(a, env)
+                vb = eval_val(b, env)
+                if abs(va - vb) > mp.mpf(10) ** (-25) * (1 + abs(va) + abs(vb)):
+                    return False
+            return True
+        except Exception:
+            return True
 
     @staticmethod
     def key(a: Val):
@@ -782,6 +828,8 @@ class Ctx:
         for A in self.angles:
             if "atan2" in A.flags and A.sin is not None and A.cos is not None:
                 # a*cosA == b*sinA and a*sinA + b*cosA > 0
+                if not self.maybe_equal(a * A.cos, b * A.sin):
+                    continue
                 if self.entails_eq(a * A.cos, b * A.sin, 3000) and self.entails(
                         V.gt(a * A.sin + b * A.cos, 0), 3000):
                     res = A.term
